@@ -1,13 +1,371 @@
 import SimilarVerif.Model.Lcs
 import SimilarVerif.Lemmas.Utils
 /-! Soundness and totality of the LCS diff (`lcsDiff` over the recording hook), for every clock. -/
-namespace SimilarVerif
+namespace SimilarVerif.LcsP
 open Spec
 
+/-! ## `Exact` implies `Carried` -/
+
+/-- `InRun` is monotone in the end of the run -/
+theorem InRun_mono {o0 n0 o n o' n' : Nat} {x : Op} (h : InRun o0 n0 o n x) (ho : o ≤ o')
+    (hn : n ≤ n') : InRun o0 n0 o' n' x := by
+  cases x <;> simp only [InRun] at * <;> omega
+
+/-- generalisation of `exact_carried` over the accumulator of `CarriedGo`; needs `Exact` only -/
+theorem exact_carriedGo : ∀ (ops : List Op) (o0 n0 o n : Nat) (pend : List Op),
+    Exact o n ops → o0 ≤ o → n0 ≤ n → (∀ x ∈ pend, InRun o0 n0 o n x) →
+    CarriedGo o0 n0 o n pend ops := by
+  intro ops
+  induction ops with
+  | nil =>
+    intro o0 n0 o n pend _ _ _ hp
+    simpa only [CarriedGo] using hp
+  | cons c cs ih =>
+    intro o0 n0 o n pend hx ho hn hp
+    cases c with
+    | equal co cn len =>
+      simp only [Exact, Op.oStart, Op.nStart, Op.oLen, Op.nLen] at hx
+      simp only [CarriedGo]
+      refine ⟨hp, ih _ _ _ _ [] hx.2.2 (Nat.le_refl _) (Nat.le_refl _) ?_⟩
+      intro x hxm; simp at hxm
+    | delete co l cn =>
+      simp only [Exact, Op.oStart, Op.nStart, Op.oLen, Op.nLen, Nat.add_zero] at hx
+      simp only [CarriedGo]
+      apply ih _ _ _ _ _ hx.2.2 (by omega) hn
+      intro x hxm
+      simp only [List.mem_cons] at hxm
+      rcases hxm with rfl | hxm
+      · simp only [InRun]; omega
+      · exact InRun_mono (hp x hxm) (by omega) (Nat.le_refl _)
+    | insert co cn l =>
+      simp only [Exact, Op.oStart, Op.nStart, Op.oLen, Op.nLen, Nat.add_zero] at hx
+      simp only [CarriedGo]
+      apply ih _ _ _ _ _ hx.2.2 ho (by omega)
+      intro x hxm
+      simp only [List.mem_cons] at hxm
+      rcases hxm with rfl | hxm
+      · simp only [InRun]; omega
+      · exact InRun_mono (hp x hxm) (Nat.le_refl _) (by omega)
+    | replace co ol cn nl =>
+      simp only [Exact, Op.oStart, Op.nStart, Op.oLen, Op.nLen] at hx
+      simp only [CarriedGo]
+      apply ih _ _ _ _ _ hx.2.2 (by omega) (by omega)
+      intro x hxm
+      simp only [List.mem_cons] at hxm
+      rcases hxm with rfl | hxm
+      · simp only [InRun]
+      · exact InRun_mono (hp x hxm) (by omega) (by omega)
+
+/-- stronger form of `exact_carried`: the `Walk` hypothesis is not needed -/
+theorem exact_carried' (ops : List Op) (o n : Nat) (hx : Exact o n ops) : Carried o n ops := by
+  unfold Carried
+  apply exact_carriedGo ops o n o n [] hx (Nat.le_refl _) (Nat.le_refl _)
+  intro x hxm; simp at hxm
+
+set_option linter.unusedVariables false in
 /-- exact carried indices satisfy C01's run-relative rule -/
 theorem exact_carried (e : Nat → Nat → Bool) (ops : List Op) (o n o' n' : Nat)
-    (hw : Walk e o n ops o' n') (hx : Exact o n ops) : Carried o n ops := by
-  sorry
+    (hw : Walk e o n ops o' n') (hx : Exact o n ops) : Carried o n ops :=
+  exact_carried' ops o n hx
+
+/-! ## `Walk` and `Exact` together, with an append lemma -/
+
+/-- a valid walk with exact indices -/
+def WX (e : Nat → Nat → Bool) (o n : Nat) (ops : List Op) (o' n' : Nat) : Prop :=
+  Walk e o n ops o' n' ∧ Exact o n ops
+
+theorem WX_nil (e : Nat → Nat → Bool) (o n : Nat) : WX e o n [] o n := by
+  simp [WX, Walk, Exact]
+
+theorem WX_nil' {e : Nat → Nat → Bool} {o n o' n' : Nat} (h1 : o' = o) (h2 : n' = n) :
+    WX e o n [] o' n' := by
+  subst h1 h2; exact WX_nil e _ _
+
+theorem WX_append {e : Nat → Nat → Bool} : ∀ (a : List Op) {b : List Op} {o n o1 n1 o2 n2 : Nat},
+    WX e o n a o1 n1 → WX e o1 n1 b o2 n2 → WX e o n (a ++ b) o2 n2 := by
+  intro a
+  induction a with
+  | nil =>
+    intro b o n o1 n1 o2 n2 h1 h2
+    simp only [WX, Walk, Exact] at h1
+    obtain ⟨⟨rfl, rfl⟩, _⟩ := h1
+    simpa using h2
+  | cons c cs ih =>
+    intro b o n o1 n1 o2 n2 h1 h2
+    cases c with
+    | equal co cn len =>
+      simp only [WX, Walk, Exact, List.cons_append, Op.oStart, Op.nStart, Op.oLen, Op.nLen] at h1 ⊢
+      obtain ⟨⟨a1, a2, a3, a4, a5⟩, b1, b2, b3⟩ := h1
+      obtain ⟨r1, r2⟩ := ih ⟨a5, b3⟩ h2
+      exact ⟨⟨a1, a2, a3, a4, r1⟩, b1, b2, r2⟩
+    | delete co l cn =>
+      simp only [WX, Walk, Exact, List.cons_append, Op.oStart, Op.nStart, Op.oLen, Op.nLen,
+        Nat.add_zero] at h1 ⊢
+      obtain ⟨⟨a1, a2, a3⟩, b1, b2, b3⟩ := h1
+      obtain ⟨r1, r2⟩ := ih ⟨a3, b3⟩ h2
+      exact ⟨⟨a1, a2, r1⟩, b1, b2, r2⟩
+    | insert co cn l =>
+      simp only [WX, Walk, Exact, List.cons_append, Op.oStart, Op.nStart, Op.oLen, Op.nLen,
+        Nat.add_zero] at h1 ⊢
+      obtain ⟨⟨a1, a2, a3⟩, b1, b2, b3⟩ := h1
+      obtain ⟨r1, r2⟩ := ih ⟨a3, b3⟩ h2
+      exact ⟨⟨a1, a2, r1⟩, b1, b2, r2⟩
+    | replace co ol cn nl =>
+      simp only [WX, Walk, Exact, List.cons_append, Op.oStart, Op.nStart, Op.oLen, Op.nLen] at h1 ⊢
+      obtain ⟨⟨a1, a2, a3, a4, a5⟩, b1, b2, b3⟩ := h1
+      obtain ⟨r1, r2⟩ := ih ⟨a5, b3⟩ h2
+      exact ⟨⟨a1, a2, a3, a4, r1⟩, b1, b2, r2⟩
+
+theorem WX_equal {e : Nat → Nat → Bool} {o n co cn len o' n' : Nat} (h1 : co = o) (h2 : cn = n)
+    (h3 : 0 < len) (h4 : ∀ t, t < len → e (o+t) (n+t) = true) (h5 : o' = o + len)
+    (h6 : n' = n + len) : WX e o n [.equal co cn len] o' n' := by
+  subst h1 h2 h5 h6
+  simp only [WX, Walk, Exact, Op.oStart, Op.nStart, and_self, and_true, true_and]
+  exact ⟨h3, h4⟩
+
+theorem WX_delete {e : Nat → Nat → Bool} {o n co cn len o' n' : Nat} (h1 : co = o) (h2 : cn = n)
+    (h3 : 0 < len) (h5 : o' = o + len) (h6 : n' = n) : WX e o n [.delete co len cn] o' n' := by
+  subst h1 h2 h5 h6
+  simp only [WX, Walk, Exact, Op.oStart, Op.nStart, and_self, and_true, true_and]
+  exact h3
+
+theorem WX_insert {e : Nat → Nat → Bool} {o n co cn len o' n' : Nat} (h1 : co = o) (h2 : cn = n)
+    (h3 : 0 < len) (h5 : o' = o) (h6 : n' = n + len) : WX e o n [.insert co cn len] o' n' := by
+  subst h1 h2 h5 h6
+  simp only [WX, Walk, Exact, Op.oStart, Op.nStart, and_self, and_true, true_and]
+  exact h3
+
+/-- an optionally emitted op: emitted iff `c`; if not emitted the position does not move -/
+theorem WX_opt {e : Nat → Nat → Bool} {o n o' n' : Nat} {c : Prop} [Decidable c] {x : Op}
+    (h1 : c → WX e o n [x] o' n') (h2 : ¬ c → o' = o ∧ n' = n) :
+    WX e o n (if c then [x] else []) o' n' := by
+  by_cases hc : c
+  · simp only [hc, if_true]; exact h1 hc
+  · simp only [hc, if_false]; exact WX_nil' (h2 hc).1 (h2 hc).2
+
+/-! ## The recording hook that never fails -/
+
+@[simp] theorem emit_rec (x : Op) (T : List Call) (w : World) :
+    emit recHook x (Rec.mk T none true) w = .ok (Rec.mk (T ++ [.op x]) none true, w) := by
+  cases x <;> simp [emit, recHook, Rec.push, Except.map]
+
+@[simp] theorem finish_rec (T : List Call) (w : World) :
+    recHook.call .finish (Rec.mk T none true) w = .ok (Rec.mk (T ++ [.finish]) none true, w) := by
+  simp [recHook, Rec.push, Except.map]
+
+theorem optEmit_rec (c : Prop) [Decidable c] (x : Op) (T : List Call) (w : World) :
+    (if c then emit recHook x (Rec.mk T none true) w else .ok (Rec.mk T none true, w)) =
+      .ok (Rec.mk (T ++ (if c then [x] else []).map Call.op) none true, w) := by
+  by_cases hc : c <;> simp [hc]
+
+theorem optEmit_rec' (c : Prop) [Decidable c] (x : Op) (T : List Call) (w : World) :
+    (if c then (Except.ok (Rec.mk (T ++ [.op x]) none true, w) : Res (Rec × World))
+      else .ok (Rec.mk T none true, w)) =
+      .ok (Rec.mk (T ++ (if c then [x] else []).map Call.op) none true, w) := by
+  by_cases hc : c <;> simp [hc]
+
+theorem optDel_rec' (c : Prop) [Decidable c] (x : Op) (T : List Call) (w : World) (a b : Nat) :
+    (if c then (Except.ok (a, Rec.mk (T ++ [.op x]) none true, w) : Res (Nat × Rec × World))
+      else .ok (b, Rec.mk T none true, w)) =
+      .ok (if c then a else b, Rec.mk (T ++ (if c then [x] else []).map Call.op) none true, w) := by
+  by_cases hc : c <;> simp [hc]
+
+/-! ## Totality of the table construction -/
+
+theorem tableRow_total (E : Env) (os ns i : Nat) : ∀ (cnt : Nat) (t : Table) (w : World),
+    (∀ j, j < cnt → (E.on (os + j) (ns + i)).isSome) →
+    ∃ t' w', tableRow E os ns i cnt t w = .ok (t', w') := by
+  intro cnt
+  induction cnt with
+  | zero => intro t w _; exact ⟨t, w, rfl⟩
+  | succ j ih =>
+    intro t w hb
+    obtain ⟨b, hc, _⟩ := cmp_total (E := E) w (hb j (Nat.lt_succ_self _))
+    simp only [tableRow, hc]
+    exact ih _ _ (fun j' hj' => hb j' (by omega))
+
+theorem tableRows_total (E : Env) (os ns ol : Nat) : ∀ (cnt : Nat) (t : Table) (w : World),
+    (∀ i j, i < cnt → j < ol → (E.on (os + j) (ns + i)).isSome) →
+    ∃ mt w', tableRows E os ns ol cnt t w = .ok (mt, w') := by
+  intro cnt
+  induction cnt with
+  | zero => intro t w _; exact ⟨some t, w, rfl⟩
+  | succ i ih =>
+    intro t w hb
+    simp only [tableRows]
+    cases hp : probe w with
+    | mk b w1 =>
+      cases b with
+      | true => exact ⟨none, w1, rfl⟩
+      | false =>
+        obtain ⟨t', w', hr⟩ := tableRow_total E os ns i ol t w1 (fun j hj => hb i j (Nat.lt_succ_self _) hj)
+        simp only [hr]
+        exact ih _ _ (fun i' j hi' hj => hb i' j (by omega) hj)
+
+theorem makeTable_total (E : Env) (os oe ns ne : Nat) (w : World) (hb : InBounds E os oe ns ne) :
+    ∃ mt w', makeTable E os oe ns ne w = .ok (mt, w') := by
+  unfold makeTable
+  apply tableRows_total
+  intro i j hi hj
+  exact hb (os + j) (ns + i) (by omega) (by omega) (by omega) (by omega)
+
+/-! ## The walk over the table -/
+
+theorem lcsWalk_rec (E : Env) (t : Table) (o0 n0 ol nl : Nat)
+    (hb : ∀ i j, i < ol → j < nl → (E.on (o0 + i) (n0 + j)).isSome) :
+    ∀ (fuel oi ni : Nat) (T : List Call) (w : World), oi ≤ ol → ni ≤ nl →
+      (ol - oi) + (nl - ni) ≤ fuel →
+      ∃ oi' ni' ops w',
+        lcsWalk E recHook t o0 n0 ol nl fuel oi ni (Rec.mk T none true) w =
+          .ok (oi', ni', Rec.mk (T ++ ops.map Call.op) none true, w') ∧
+        WX (eqB E) (o0 + oi) (n0 + ni) ops (o0 + oi') (n0 + ni') ∧
+        oi' ≤ ol ∧ ni' ≤ nl ∧ (oi' = ol ∨ ni' = nl) := by
+  intro fuel
+  induction fuel with
+  | zero =>
+    intro oi ni T w ho hn hf
+    have hc : ¬ (ni < nl ∧ oi < ol) := by omega
+    refine ⟨oi, ni, [], w, ?_, WX_nil _ _ _, ho, hn, by omega⟩
+    simp [lcsWalk, hc]
+  | succ f ih =>
+    intro oi ni T w ho hn hf
+    by_cases hc : ni < nl ∧ oi < ol
+    · obtain ⟨b, hcmp, hE⟩ := cmp_total (E := E) w (hb oi ni hc.2 hc.1)
+      cases b with
+      | true =>
+        obtain ⟨oi', ni', ops, w', h1, h2, h3, h4, h5⟩ :=
+          ih (oi+1) (ni+1) (T ++ [.op (.equal (o0 + oi) (n0 + ni) 1)]) { w with cmps := w.cmps + 1 } (by omega) (by omega) (by omega)
+        refine ⟨oi', ni', .equal (o0 + oi) (n0 + ni) 1 :: ops, w', ?_, ?_, h3, h4, h5⟩
+        · simp only [lcsWalk, hc, hcmp, decide_true, Bool.and_self, if_true, emit_rec, h1]; simp
+        · have hs : WX (eqB E) (o0 + oi) (n0 + ni) [.equal (o0 + oi) (n0 + ni) 1] (o0 + (oi+1)) (n0 + (ni+1)) := by
+            apply WX_equal rfl rfl (by omega) _ (by omega) (by omega)
+            intro t ht
+            have : t = 0 := by omega
+            subst this
+            simp [eqB, hE]
+          exact WX_append [_] hs h2
+      | false =>
+        by_cases htab : t.get ni (oi+1) ≥ t.get (ni+1) oi
+        · obtain ⟨oi', ni', ops, w', h1, h2, h3, h4, h5⟩ :=
+            ih (oi+1) ni (T ++ [.op (.delete (o0 + oi) 1 (n0 + ni))]) { w with cmps := w.cmps + 1 } (by omega) (by omega) (by omega)
+          refine ⟨oi', ni', .delete (o0 + oi) 1 (n0 + ni) :: ops, w', ?_, ?_, h3, h4, h5⟩
+          · simp only [lcsWalk, hc, hcmp, htab, decide_true, Bool.and_self, if_true, emit_rec, h1]; simp
+          · have hs : WX (eqB E) (o0 + oi) (n0 + ni) [.delete (o0 + oi) 1 (n0 + ni)] (o0 + (oi+1)) (n0 + ni) :=
+              WX_delete rfl rfl (by omega) (by omega) rfl
+            exact WX_append [_] hs h2
+        · obtain ⟨oi', ni', ops, w', h1, h2, h3, h4, h5⟩ :=
+            ih oi (ni+1) (T ++ [.op (.insert (o0 + oi) (n0 + ni) 1)]) { w with cmps := w.cmps + 1 } (by omega) (by omega) (by omega)
+          refine ⟨oi', ni', .insert (o0 + oi) (n0 + ni) 1 :: ops, w', ?_, ?_, h3, h4, h5⟩
+          · simp only [lcsWalk, hc, hcmp, htab, decide_true, Bool.and_self, if_true, if_false, emit_rec, h1]; simp
+          · have hs : WX (eqB E) (o0 + oi) (n0 + ni) [.insert (o0 + oi) (n0 + ni) 1] (o0 + oi) (n0 + (ni+1)) :=
+              WX_insert rfl rfl (by omega) rfl (by omega)
+            exact WX_append [_] hs h2
+    · refine ⟨oi, ni, [], w, ?_, WX_nil _ _ _, ho, hn, by omega⟩
+      simp [lcsWalk, hc]
+
+/-! ## The whole call -/
+
+theorem InBounds_sub {E : Env} {os oe ns ne os' oe' ns' ne' : Nat} (hb : InBounds E os oe ns ne)
+    (h1 : os ≤ os') (h2 : oe' ≤ oe) (h3 : ns ≤ ns') (h4 : ne' ≤ ne) : InBounds E os' oe' ns' ne' :=
+  fun i j a b c d => hb i j (by omega) (by omega) (by omega) (by omega)
+
+/-- the two flushes after the walk and the common suffix, as a script -/
+theorem WX_flush {E : Env} {os oe ns ne p sl ol nl ni x : Nat} (hx : x = ol) (hni : ni ≤ nl)
+    (ho : os ≤ oe) (hn : ns ≤ ne) (hol : oe - os - p - sl = ol) (hnl : ne - ns - p - sl = nl)
+    (p1 : p ≤ oe - os) (p2 : p ≤ ne - ns) (s1 : sl ≤ oe - (os + p)) (s2 : sl ≤ ne - (ns + p))
+    (s3 : ∀ t, t < sl → eqB E (oe - 1 - t) (ne - 1 - t) = true) :
+    WX (eqB E) (os + p + x) (ns + p + ni)
+      ((if ni < nl then [Op.insert (os + p + x) (ns + p + ni) (nl - ni)] else []) ++
+       (if 0 < sl then [Op.equal (os + ol + p) (ns + nl + p) sl] else [])) oe ne := by
+  subst hx
+  apply WX_append (o1 := os + p + x) (n1 := ns + p + nl)
+  · apply WX_opt
+    · intro h; exact WX_insert rfl rfl (by omega) rfl (by omega)
+    · intro h; exact ⟨rfl, by omega⟩
+  · apply WX_opt
+    · intro h
+      apply WX_equal (by omega) (by omega) h _ (by omega) (by omega)
+      intro t ht
+      have h3 := s3 (sl - 1 - t) (by omega)
+      have e1 : oe - 1 - (sl - 1 - t) = os + p + x + t := by omega
+      have e2 : ne - 1 - (sl - 1 - t) = ns + p + nl + t := by omega
+      rw [e1, e2] at h3; exact h3
+    · intro h; exact ⟨by omega, by omega⟩
+
+/-- everything after the table walk as a script: delete flush, insert flush, suffix -/
+theorem WX_tail {E : Env} {os oe ns ne p sl ol nl oi ni : Nat} {P : List Op}
+    (hP : WX (eqB E) os ns P (os + p + oi) (ns + p + ni))
+    (hoi : oi ≤ ol) (hni : ni ≤ nl)
+    (ho : os ≤ oe) (hn : ns ≤ ne) (hol : oe - os - p - sl = ol) (hnl : ne - ns - p - sl = nl)
+    (p1 : p ≤ oe - os) (p2 : p ≤ ne - ns) (s1 : sl ≤ oe - (os + p)) (s2 : sl ≤ ne - (ns + p))
+    (s3 : ∀ t, t < sl → eqB E (oe - 1 - t) (ne - 1 - t) = true) :
+    WX (eqB E) os ns
+      (P ++ ((if oi < ol then [Op.delete (os + p + oi) (ol - oi) (ns + p + ni)] else []) ++
+        ((if ni < nl then
+            [Op.insert (os + p + (if oi < ol then ol else oi)) (ns + p + ni) (nl - ni)] else []) ++
+         (if 0 < sl then [Op.equal (os + ol + p) (ns + nl + p) sl] else [])))) oe ne := by
+  apply WX_append P hP
+  apply WX_append (o1 := os + p + (if oi < ol then ol else oi)) (n1 := ns + p + ni)
+  · apply WX_opt
+    · intro h; simp only [h, if_true]; exact WX_delete rfl rfl (by omega) (by omega) rfl
+    · intro h; exact ⟨by simp only [h, if_false], rfl⟩
+  · exact WX_flush (by split <;> omega) hni ho hn hol hnl p1 p2 s1 s2 s3
+
+/-- `lcs_valid` for an arbitrary trace already recorded -/
+theorem lcs_valid_gen (E : Env) (os oe ns ne : Nat) (T : List Call) (w : World) (ho : os ≤ oe)
+    (hn : ns ≤ ne) (hb : InBounds E os oe ns ne) :
+    ∃ ops w', lcsDiff E recHook os oe ns ne (Rec.mk T none true) w =
+        .ok (Rec.mk (T ++ ops.map Call.op ++ [.finish]) none true, w') ∧
+      WX (eqB E) os ns ops oe ne := by
+  unfold lcsDiff
+  by_cases h1 : ne ≤ ns
+  · by_cases h2 : oe ≤ os
+    · refine ⟨[], w, by simp [h1, h2], WX_nil' (by omega) (by omega)⟩
+    · refine ⟨[.delete os (oe - os) ns], w, by simp [h1, h2],
+        WX_delete rfl rfl (by omega) (by omega) (by omega)⟩
+  · by_cases h2 : oe ≤ os
+    · refine ⟨[.insert os ns (ne - ns)], w, by simp [h1, h2],
+        WX_insert rfl rfl (by omega) (by omega) (by omega)⟩
+    · simp only [h1, h2, if_false]
+      obtain ⟨p, w1, hp⟩ := commonPrefixLen_total (E := E) w hb
+      obtain ⟨p1, p2, p3, -, -⟩ := commonPrefixLen_spec hp
+      obtain ⟨sl, w2, hs⟩ := commonSuffixLen_total (E := E) (os := os + p) (oe := oe) (ns := ns + p)
+        (ne := ne) w1 (InBounds_sub hb (by omega) (by omega) (by omega) (by omega))
+      obtain ⟨s1, s2, s3, -, -⟩ := commonSuffixLen_spec hs
+      simp only [hp, hs]
+      by_cases h3 : (p == oe - os && oe - os == ne - ns) = true
+      · simp only [h3, if_true, emit_rec, finish_rec]
+        simp only [Bool.and_eq_true, beq_iff_eq] at h3
+        refine ⟨[.equal os ns (oe - os)], w2, by simp, ?_⟩
+        apply WX_equal rfl rfl (by omega) _ (by omega) (by omega)
+        intro t ht; exact p3 t (by omega)
+      · simp only [h3, Bool.false_eq_true, if_false]
+        obtain ⟨mt, w3, hm⟩ := makeTable_total E (os + p) (oe - sl) (ns + p) (ne - sl) w2
+          (InBounds_sub hb (by omega) (by omega) (by omega) (by omega))
+        simp only [hm, optEmit_rec]
+        generalize hol : oe - os - p - sl = ol
+        generalize hnl : ne - ns - p - sl = nl
+        generalize hT1 : T ++ List.map Call.op (if 0 < p then [Op.equal os ns p] else []) = T1
+        have hA : WX (eqB E) os ns (if 0 < p then [Op.equal os ns p] else []) (os + p) (ns + p) := by
+          apply WX_opt
+          · intro h; exact WX_equal rfl rfl h p3 rfl rfl
+          · intro h; exact ⟨by omega, by omega⟩
+        cases mt with
+        | none =>
+          simp only [emit_rec, optDel_rec', optEmit_rec', finish_rec]
+          refine ⟨_, w3, ?_, WX_tail (oi := 0) (ni := 0) (ol := ol) (nl := nl)
+            (P := if 0 < p then [Op.equal os ns p] else []) hA
+            (Nat.zero_le _) (Nat.zero_le _) ho hn hol hnl p1 p2 s1 s2 s3⟩
+          simp [← hT1]
+        | some t =>
+          obtain ⟨oi, ni, W, w4, e1, e2, e3, e4, -⟩ := lcsWalk_rec E t (os + p) (ns + p) ol nl
+            (fun i j hi hj => hb (os + p + i) (ns + p + j) (by omega) (by omega) (by omega) (by omega))
+            (ol + nl) 0 0 T1 w3 (by omega) (by omega) (by omega)
+          simp only [e1, emit_rec, optDel_rec', optEmit_rec', finish_rec]
+          refine ⟨_, w4, ?_, WX_tail (ol := ol) (nl := nl)
+            (P := (if 0 < p then [Op.equal os ns p] else []) ++ W) (WX_append _ hA e2)
+            e3 e4 ho hn hol hnl p1 p2 s1 s2 s3⟩
+          simp [← hT1]
 
 /-- **LCS is total and sound**: for in-bounds ranges and any clock the call returns, and what the
 recording hook was told is a valid script with exact indices followed by exactly one `finish`. -/
@@ -15,6 +373,14 @@ theorem lcs_valid (E : Env) (os oe ns ne : Nat) (w : World) (ho : os ≤ oe) (hn
     (hb : InBounds E os oe ns ne) :
     ∃ ops w', lcsDiff E recHook os oe ns ne {} w = .ok ({ trace := ops.map Call.op ++ [.finish] }, w') ∧
       Walk (eqB E) os ns ops oe ne ∧ Exact os ns ops := by
-  sorry
+  obtain ⟨ops, w', h1, h2, h3⟩ := lcs_valid_gen E os oe ns ne [] w ho hn hb
+  exact ⟨ops, w', by simpa using h1, h2, h3⟩
 
-end SimilarVerif
+/-- corollary: the recorded stream is `ValidRaw` -/
+theorem lcs_validRaw (E : Env) (os oe ns ne : Nat) (w : World) (ho : os ≤ oe) (hn : ns ≤ ne)
+    (hb : InBounds E os oe ns ne) :
+    ∃ r w', lcsDiff E recHook os oe ns ne {} w = .ok (r, w') ∧ ValidRaw E os oe ns ne r.trace := by
+  obtain ⟨ops, w', h1, h2, h3⟩ := lcs_valid E os oe ns ne w ho hn hb
+  exact ⟨_, w', h1, ops, rfl, h2, exact_carried _ ops os ns oe ne h2 h3⟩
+
+end SimilarVerif.LcsP
